@@ -1,7 +1,7 @@
 """C11 — Semaphore (lockset, guarded take, notify kind) and the two thread barriers
 (arrival / release ordering, RMW decisions, twin agreement)."""
-from engine import ir, dtable, match, sync, cfg as cfgm
-from engine.ir import kids, strip_casts, const_int, ref_of
+from engine import ir, dtable, match, sync, mustfact, cfg as cfgm
+from engine.ir import kids, strip_casts, const_int, ref_of, walk
 from rules.c10 import field_writes
 
 SEM = "tlx::Semaphore"
@@ -42,47 +42,86 @@ def check_semaphore(ck, tu):
             if any(fn.param_index(r) is not None for r in refs):
                 waiter_params = True
             ck.ok("NO-BARE-WAIT", tag, "wait re-checks %s in a loop with mutex_ held" % (dtable.describe(cond) if cond is not None else "its predicate"))
-        # guarded take
-        for x, f, eff in field_writes(fn):
-            if f != "value_":
-                continue
+        # guarded take: on every path to `value_ -= delta` the last thing known about value_ is value_ >= delta + slack
+        delta = fn.params[0]["did"] if fn.params else None
+        slack = fn.params[1]["did"] if len(fn.params) > 1 else None
+        takes = [(x, f, eff) for x, f, eff in field_writes(fn) if f == "value_" and (match.binop(x, ("-=",)) or x.get("op") == "--")]
+        if not takes:
+            continue
+        locals_ = {v["did"]: v for v in fn.nodes() if v["k"] == "VarDecl"}
+        assigned = {ref_of(match.binop(z, ("=", "+=", "-="))[1]) for z in fn.nodes()
+                    if z["k"] in ("BinaryOperator", "CompoundAssignOperator") and match.binop(z, ("=", "+=", "-="))}
+
+        def params_sum(e, depth=0):
+            """sorted list of parameter ids if e is a sum of parameters (through never-reassigned locals), else None"""
+            e = strip_casts(e)
+            while e is not None and e["k"] == "ParenExpr":
+                e = strip_casts(kids(e)[0])
+            if e is None or depth > 4:
+                return None
+            d = ref_of(e)
+            if d is not None:
+                if fn.param_index(d) is not None:
+                    return [d]
+                v = locals_.get(d)
+                if v is not None and kids(v) and d not in assigned:
+                    return params_sum(kids(v)[0], depth + 1)
+                return None
+            sm = match.binop(e, ("+",))
+            if sm:
+                l, r = params_sum(sm[1], depth + 1), params_sum(sm[2], depth + 1)
+                return sorted(l + r) if l is not None and r is not None else None
+            return None
+        want = sorted(d for d in (delta, slack) if d is not None)
+
+        def implies(c, truth):
+            c = strip_casts(c)
+            while c is not None and (c["k"] == "ParenExpr" or (c["k"] == "UnaryOperator" and c.get("op") == "!")):
+                if c["k"] == "UnaryOperator":
+                    truth = not truth
+                c = strip_casts(kids(c)[0])
+            bb = match.binop(c, ("<", ">=", ">", "<="))
+            if not bb:
+                return False
+            op, l, r = bb
+            if match.this_field(r) == "value_":
+                l, r = r, l
+                op = {"<": ">", ">": "<", "<=": ">=", ">=": "<="}[op]
+            if match.this_field(l) != "value_" or params_sum(r) != want:
+                return False
+            return (op == ">=" and truth) or (op == "<" and not truth)
+        waits_ = {w["node"]["id"]: w for w in sync.wait_calls(fn)}
+
+        def effect(n):
+            if n["id"] in waits_:
+                w = waits_[n["id"]]
+                if w["pred"] is not None:
+                    lf = tu.by_did.get(w["pred"].get("fn"))
+                    rets = [r for r in ir.walk(lf.body) if r["k"] == "ReturnStmt" and kids(r)] if lf is not None and lf.body is not None else []
+                    if len(rets) == 1 and implies(kids(rets[0])[0], True):
+                        return "gen"
+                return "kill"
+            if "callee" in n and n["callee"]["name"] in ("unlock", "lock"):
+                return "kill"
+            if "callee" in n and n.get("member_call") and kids(n) and strip_casts(kids(n)[0])["k"] == "This" and not n["callee"].get("const"):
+                raise dtable.Undecidable("%s: call of %s() between the availability test and the take" % (fn.loc, n["callee"]["name"]))
+            if any(n is x for x, f, eff in field_writes(fn) if f == "value_"):
+                return "kill"
+            return None
+        mf = mustfact.MustFact(fn, g, implies, effect)
+        for x, f, eff in takes:
             b = match.binop(x, ("-=",))
-            if not b and not (x.get("op") in ("--",)):
-                continue
-            amount = ref_of(b[2]) if b else None
-            okg = False
-            why = "the decrement is not dominated by the test value_ >= delta + slack in the same lock hold"
-            delta = fn.params[0]["did"] if fn.params else None
-            slack = fn.params[1]["did"] if len(fn.params) > 1 else None
-            for y in fn.nodes():
-                c = None
-                exits_when_true = False
-                if y["k"] == "WhileStmt":
-                    c = kids(y)[0]
-                    exits_when_true = any(z is w_["node"] for w_ in sync.wait_calls(fn) for z in ir.walk(kids(y)[1]))
-                elif y["k"] == "IfStmt":
-                    c = kids(y)[0]
-                    exits_when_true = kids(y)[1] is not None and any(z["k"] == "ReturnStmt" for z in ir.walk(kids(y)[1]))
-                if c is None or not exits_when_true:
-                    continue
-                bb = match.binop(c, ("<",))
-                if not bb or match.this_field(bb[1]) != "value_":
-                    continue
-                s = match.binop(bb[2], ("+",))
-                rhs_ids = {ref_of(s[1]), ref_of(s[2])} if s else {ref_of(bb[2])}
-                if rhs_ids != {delta, slack}:
-                    why = "the availability test compares value_ with %s instead of delta + slack" % dtable.describe(bb[2])
-                    continue
-                pc, px = g.pos_deep(c), g.pos_deep(x)
-                unl = [u for u in fn.nodes() if "callee" in u and u["callee"]["name"] == "unlock" and g.pos(u) and g.dominates(pc, g.pos(u)) and g.dominates(g.pos(u), px)]
-                if pc and px and g.dominates(pc, px) and not unl:
-                    okg = True
-            if amount != delta:
-                okg, why = False, "the semaphore is decremented by %s instead of delta" % (dtable.describe(b[2]) if b else "1")
-            if okg:
+            amount = params_sum(b[2]) if b else None
+            if b and amount is None:
+                raise dtable.Undecidable("%s: amount taken from the semaphore not understood: %s" % (fn.loc, dtable.describe(b[2])))
+            if amount != [delta]:
+                ck.violation("SEM-GUARDED-TAKE", fn.qname, fn.name, "the semaphore is decremented by %s instead of delta"
+                             % (dtable.describe(b[2]) if b else "1"), fn.nloc(x))
+            elif mf.before(x) is True:
                 ck.ok("SEM-GUARDED-TAKE", tag, "value_ -= delta only after value_ >= delta + slack was established in the same hold")
             else:
-                ck.violation("SEM-GUARDED-TAKE", fn.qname, fn.name, why, fn.nloc(x))
+                ck.violation("SEM-GUARDED-TAKE", fn.qname, fn.name, "value_ -= delta is reachable on a path on which value_ >= delta + slack "
+                             "was not the last thing established under the lock", fn.nloc(x))
     # writes that add tokens need a notify; kind depends on the waiters
     for fn in fns:
         fl = flows[fn.did]
@@ -147,6 +186,25 @@ def check_spin(ck, tu):
         spin = [x for x, (f, op, o) in ops if f == "step_" and op == "load" and x not in snap]
         lam = [x for x in fn.nodes() if "callee" in x and x.get("op") == "()" and kids(x) and ref_of(kids(x)[0]) == fn.params[0]["did"]]
         bad = []
+        # the last arriver's work may live in a private helper that receives the action
+        hfn, hcall, hg = None, None, None
+        if len(snap) == 1 and len(arrive) == 1 and len(spin) == 1 and not reset and not release and not lam:
+            for x in fn.nodes():
+                if "callee" in x and x.get("member_call") and kids(x) and strip_casts(kids(x)[0])["k"] == "This":
+                    cal = tu.by_did.get(x["callee"]["did"])
+                    if cal is None or cal.body is None or cal.did == fn.did:
+                        continue
+                    ai = [i for i, a in enumerate(kids(x)[1:]) if ref_of(a) == fn.params[0]["did"]]
+                    if len(ai) != 1 or ai[0] >= len(cal.params):
+                        continue
+                    hops = [(y, atomic_op(y)) for y in cal.nodes() if atomic_op(y)]
+                    reset = [y for y, (f, op, o) in hops if f == "waiting_" and op == "store"]
+                    release = [y for y, (f, op, o) in hops if f == "step_" and op in ("fetch_add", "store")]
+                    lam = [y for y in cal.nodes() if "callee" in y and y.get("op") == "()" and kids(y) and ref_of(kids(y)[0]) == cal.params[ai[0]]["did"]]
+                    if any(f == "waiting_" and op == "fetch_add" for y, (f, op, o) in hops):
+                        reset = []
+                    hfn, hcall, hg = cal, x, cfgm.CFG(cal)
+                    break
         if not (len(snap) == 1 and len(arrive) == 1 and len(reset) == 1 and len(release) == 1 and len(spin) == 1 and len(lam) == 1):
             raise dtable.Undecidable("%s: barrier skeleton not recognised (snap=%d arrive=%d reset=%d release=%d spin=%d action=%d)"
                                      % (fn.loc, len(snap), len(arrive), len(reset), len(release), len(spin), len(lam)))
@@ -160,9 +218,10 @@ def check_spin(ck, tu):
         cmpn = match.binop(par, ("==",)) if par is not None else None
         if not (cmpn and (strip_casts(cmpn[1]) is arrive[0] or strip_casts(cmpn[2]) is arrive[0])):
             bad.append(("rmw-result", "the last arriver is not decided by the result of the arrival fetch_add itself", arrive[0]))
-        if not (g.dominates(P(reset[0]), P(release[0])) and g.dominates(P(lam[0]), P(release[0]))):
+        G2 = hg if hfn is not None else g
+        if not (G2.dominates(G2.pos(reset[0]), G2.pos(release[0])) and G2.dominates(G2.pos(lam[0]), G2.pos(release[0]))):
             bad.append(("release-order", "the generation counter is advanced (releasing the spinners) before the arrival counter was reset and the action has run", release[0]))
-        if not g.dominates(P(arrive[0]), P(lam[0])):
+        if not g.dominates(P(arrive[0]), g.pos_deep(hcall) if hfn is not None else P(lam[0])):
             bad.append(("action-early", "the action runs before the arrival was counted", lam[0]))
         ro = atomic_op(release[0])[2]
         so = atomic_op(spin[0])[2]
@@ -219,16 +278,47 @@ def check_mutex_barrier(ck, tu):
             bad.append(("arrive-index", "arrival is not counted in the generation that was sampled", arrive[0]))
         if not g.dominates(P(snap[0]), P(arrive[0])):
             bad.append(("snapshot", "the generation is sampled after arriving", snap[0]))
-        # waiters loop on counts_[current]
-        loop = fn.parent(waits[0]["node"])
-        while loop is not None and loop["k"] not in ("WhileStmt", "DoStmt"):
-            loop = fn.parent(loop)
-        if loop is None:
-            bad.append(("bare-wait", "waiters do not re-check in a loop", waits[0]["node"]))
+        # waiters re-check counts_[current] against thread_count_: either `while (stay) cv.wait(lock)` or cv.wait(lock, proceed)
+        w = waits[0]
+        stay = proceed = None
+        if w["pred"] is not None:
+            lf = tu.by_did.get(w["pred"].get("fn"))
+            if lf is None or lf.body is None:
+                raise dtable.Undecidable("%s: body of the wait predicate not available" % fn.loc)
+            rets = [r for r in walk(lf.body) if r["k"] == "ReturnStmt" and kids(r)]
+            if len(rets) != 1:
+                raise dtable.Undecidable("%s: wait predicate with %d return statements" % (fn.loc, len(rets)))
+            proceed = kids(rets[0])[0]
         else:
-            c = match.loop_parts(loop)[1]
-            b = match.binop(c, ("<", "!="))
-            if not (b and counts_index(b[1]) is not None and ref_of(counts_index(b[1])) == cur and match.this_field(b[2]) == "thread_count_"):
+            loop = fn.parent(w["node"])
+            while loop is not None and loop["k"] not in ("WhileStmt", "DoStmt", "ForStmt"):
+                loop = fn.parent(loop)
+            if loop is not None:
+                stay = match.loop_parts(loop)[1]
+        if stay is None and proceed is None:
+            bad.append(("bare-wait", "waiters do not re-check in a loop", w["node"]))
+        else:
+            c = stay if stay is not None else proceed
+            neg = False
+            c0 = strip_casts(c)
+            while c0 is not None and (c0["k"] == "ParenExpr" or (c0["k"] == "UnaryOperator" and c0.get("op") == "!")):
+                if c0["k"] == "UnaryOperator":
+                    neg = not neg
+                c0 = strip_casts(kids(c0)[0])
+            b = match.binop(c0, ("<", "!=", ">=", "==", ">", "<="))
+            ok_pred = False
+            if b:
+                op, l, r = b
+                if counts_index(r) is not None:
+                    l, r = r, l
+                    op = {"<": ">", ">": "<", "<=": ">=", ">=": "<=", "==": "==", "!=": "!="}[op]
+                if counts_index(l) is not None and ref_of(counts_index(l)) == cur and match.this_field(r) == "thread_count_":
+                    # counts_ <= thread_count_ always; "stay" forms: < !=   "proceed" forms: >= ==
+                    is_stay = (op in ("<", "!=")) != neg
+                    is_proceed = (op in (">=", "==")) != neg
+                    if op in ("<", "!=", ">=", "=="):
+                        ok_pred = is_stay if stay is not None else is_proceed
+            if not ok_pred:
                 bad.append(("wait-pred", "waiters do not wait for counts_[their generation] to reach thread_count_", c))
         # last arriver: flip, reset the OTHER counter, action, notify_all - all in one hold, in dominance order
         ri = counts_index(match.binop(resets[0], ("=",))[1])
@@ -270,10 +360,10 @@ def run(ck):
     check_semaphore(ck, tu)
     check_mutex_barrier(ck, tu)
     check_spin(ck, tu)
-    ck.floor("SEM-LOCKSET", 6)
+    ck.floor("SEM-LOCKSET", 4)
     ck.floor("SEM-GUARDED-TAKE", 2)
     ck.floor("NO-BARE-WAIT", 1)
-    ck.floor("WRITE-NOTIFY", 2)
-    ck.floor("NOTIFY-KIND", 2)
+    ck.floor("WRITE-NOTIFY", 1)
+    ck.floor("NOTIFY-KIND", 1)
     ck.floor("BARRIER-ORDER", 2)
     ck.floor("SPIN-ORDER", 4)
